@@ -3,6 +3,7 @@ package main
 // Per-function verification context: SMT command log, symbolic state, sort mapping, obligations.
 
 import (
+	"regexp"
 	"fmt"
 	"go/ast"
 	"go/token"
@@ -31,6 +32,12 @@ type Obligation struct {
 	Res     SolverResult
 	Entry   map[string]string // names of entry symbols (for model extraction)
 	Trivial bool
+	Label   string
+	Needs   []string
+	Strict  bool
+	sliced  bool
+	ByHyp   bool
+	chainSet map[string]bool
 }
 
 type deferred struct {
@@ -78,6 +85,7 @@ type FnCtx struct {
 	contract *Contract
 	name     string // qualified display name
 	bv       bool
+	mixed    bool
 
 	pre      []string // sort / function declarations and axioms (position independent)
 	cmds     []string
@@ -100,7 +108,19 @@ type FnCtx struct {
 	counters map[string]int
 	inSpec   int
 	noDefine int
+	cmdOnly  map[int]string // cmd index -> comma separated obligation labels it is relevant for
+	curOnly  string
+	cmdFact  map[int]string // cmd index -> label of the contract clause this fact comes from
+	curFact  string
+	curNeeds []string
+	curStrict bool
+	curLabelBase string
+	tailDup  int
+	known    map[string]map[string]bool // pc -> normalised facts assumed under exactly that pc
+	pcs      map[string]pcInfo
+	cmdGuard map[int]string
 	axiomKey map[int]string
+	reveal   map[string]string
 	noAssumeGoal bool
 	fnSig    *types.Signature
 	inlineDepth int
@@ -119,14 +139,38 @@ func (fc *FnCtx) fail(pos token.Pos, f string, a ...interface{}) {
 }
 
 func (fc *FnCtx) I() string {
-	if fc.bv {
+	if fc.idxBV() {
 		return "(_ BitVec 64)"
 	}
 	return "Int"
 }
 
+// Modes: "bv": every integer is a bit-vector (int = 64 bit). "int": every integer is mathematical.
+// "mixed": the platform `int` (lengths, indices, counters) is mathematical with overflow obligations,
+// every sized integer type is a bit-vector with exact wrap-around semantics.
+func (fc *FnCtx) idxBV() bool { return fc.bv && !fc.mixed }
+
+// isBVType: is this integer type represented as a bit-vector?
+func (fc *FnCtx) isBVType(t types.Type) bool {
+	if !fc.bv {
+		return false
+	}
+	if !fc.mixed {
+		return true
+	}
+	b := basicOf(t)
+	if b == nil {
+		return true
+	}
+	switch b.Kind() {
+	case types.Int, types.UntypedInt, types.UntypedRune, types.UntypedFloat:
+		return false
+	}
+	return true
+}
+
 func (fc *FnCtx) idxLit(n int64) string {
-	if fc.bv {
+	if fc.idxBV() {
 		return bvLit(big.NewInt(n), 64)
 	}
 	return intLit(big.NewInt(n))
@@ -171,18 +215,153 @@ func isAtomic(t string) bool {
 }
 
 func (fc *FnCtx) define(prefix, sort, term string) string {
-	if isAtomic(term) || len(term) < 24 || fc.noDefine > 0 {
+	if isAtomic(term) || fc.noDefine > 0 || (len(term) < 24 && prefix != "pc") {
 		return term
 	}
 	fc.nfresh++
 	n := sym(fmt.Sprintf("%s!%d", prefix, fc.nfresh))
 	fc.cmds = append(fc.cmds, fmt.Sprintf("(define-fun %s () %s %s)", n, sort, term))
+	if prefix == "pc" {
+		fc.registerPC(n, term)
+	}
 	return n
+}
+
+type pcInfo struct {
+	parent string
+	cond   string
+}
+
+// registerPC records the branching structure of path conditions so that facts recorded on a
+// mutually exclusive path can be left out of a query (they are vacuous there).
+func (fc *FnCtx) registerPC(n, term string) {
+	if fc.pcs == nil {
+		fc.pcs = map[string]pcInfo{}
+	}
+	if strings.HasPrefix(term, "(and ") {
+		parts := splitSx(term[1 : len(term)-1])
+		if len(parts) >= 3 {
+			p := parts[1]
+			if _, known := fc.pcs[p]; known || p == "true" {
+				fc.pcs[n] = pcInfo{parent: p, cond: strings.Join(parts[2:], " ")}
+				return
+			}
+		}
+		// (and X) where the parent is `true` was simplified away: parent true
+		fc.pcs[n] = pcInfo{parent: "true", cond: strings.Join(parts[1:], " ")}
+		return
+	}
+	if strings.HasPrefix(term, "(or ") {
+		parts := splitSx(term[1 : len(term)-1])
+		if len(parts) == 3 {
+			fc.pcs[n] = pcInfo{parent: fc.lca(parts[1], parts[2]), cond: "?merge" + n}
+			return
+		}
+	}
+	if strings.HasPrefix(term, "(not ") {
+		fc.pcs[n] = pcInfo{parent: "true", cond: term}
+		return
+	}
+	fc.pcs[n] = pcInfo{parent: "true", cond: term}
+}
+
+func (fc *FnCtx) chain(p string) []string {
+	var out []string
+	for i := 0; i < 200; i++ {
+		out = append(out, p)
+		info, ok := fc.pcs[p]
+		if !ok {
+			break
+		}
+		p = info.parent
+	}
+	return out
+}
+
+func (fc *FnCtx) lca(a, b string) string {
+	in := map[string]bool{}
+	for _, x := range fc.chain(a) {
+		in[x] = true
+	}
+	for _, y := range fc.chain(b) {
+		if in[y] {
+			return y
+		}
+	}
+	return "true"
+}
+
+// exclusive: do the two path conditions lie on different branches of some split?
+func (fc *FnCtx) exclusive(a, b string) bool {
+	if a == b {
+		return false
+	}
+	ca, cb := fc.chain(a), fc.chain(b)
+	for _, x := range ca {
+		ix, ok := fc.pcs[x]
+		if !ok {
+			continue
+		}
+		for _, y := range cb {
+			iy, ok := fc.pcs[y]
+			if !ok || x == y || ix.parent != iy.parent {
+				continue
+			}
+			if ix.cond == not(iy.cond) || iy.cond == not(ix.cond) {
+				return true
+			}
+		}
+	}
+	return false
+}
+
+var boundRe = regexp.MustCompile(`\|?[A-Za-z_][A-Za-z0-9_]*\?[0-9]+\|?`)
+
+// normQ renames bound variables canonically so that two formulas differing only in the fresh names
+// of their quantified variables compare equal.
+func normQ(f string) string {
+	if !strings.Contains(f, "?") {
+		return f
+	}
+	m := map[string]string{}
+	return boundRe.ReplaceAllStringFunc(f, func(x string) string {
+		if r, ok := m[x]; ok {
+			return r
+		}
+		r := fmt.Sprintf("?b%d", len(m))
+		m[x] = r
+		return r
+	})
 }
 
 func (fc *FnCtx) assume(st *State, f string) {
 	if f == "true" {
 		return
+	}
+	if fc.known == nil {
+		fc.known = map[string]map[string]bool{}
+	}
+	if fc.known[st.pc] == nil {
+		fc.known[st.pc] = map[string]bool{}
+	}
+	fc.known[st.pc][normQ(f)] = true
+	if fc.curOnly != "" {
+		if fc.cmdOnly == nil {
+			fc.cmdOnly = map[int]string{}
+		}
+		fc.cmdOnly[len(fc.cmds)] = fc.curOnly
+	}
+	if fc.curFact != "" {
+		if fc.cmdFact == nil {
+			fc.cmdFact = map[int]string{}
+		}
+		fc.cmdFact[len(fc.cmds)] = fc.curFact
+	}
+	if _, ok := fc.pcs[st.pc]; ok {
+		if fc.cmdGuard == nil {
+			fc.cmdGuard = map[int]string{}
+		}
+		fc.cmdGuard[len(fc.cmds)] = st.pc
 	}
 	fc.cmds = append(fc.cmds, fmt.Sprintf("(assert %s)", implies(st.pc, f)))
 }
@@ -215,18 +394,40 @@ func (fc *FnCtx) assertNamed(st *State, goal, kind, label, desc string, pos toke
 	} else {
 		name = fc.oblName(kind)
 	}
-	o := &Obligation{Name: name, Kind: kind, Desc: desc, Func: fc.name, Goal: goal, PC: st.pc, ncmds: len(fc.cmds), npre: -1, fc: fc, Expect: "unsat"}
+	o := &Obligation{Name: name, Kind: kind, Desc: desc, Func: fc.name, Goal: goal, PC: st.pc, ncmds: len(fc.cmds), npre: -1, fc: fc, Expect: "unsat", Label: label, Needs: fc.curNeeds, Strict: fc.curStrict}
 	if pos.IsValid() {
 		o.Pos = fc.eng.fset.Position(pos).String()
 	}
 	if goal == "true" || st.pc == "false" {
 		o.Trivial = true
+	} else {
+		// proof by hypothesis: the goal is literally a fact already recorded on this path
+		ng := normQ(goal)
+		for _, g := range fc.chain(st.pc) {
+			if fc.known[g][ng] {
+				o.Trivial = true
+				o.ByHyp = true
+				break
+			}
+		}
 	}
 	fc.obls = append(fc.obls, o)
 	if !fc.noAssumeGoal {
+		saved := fc.curFact
+		if label != "" && fc.curFact == "" && (kind == "post" || strings.HasPrefix(kind, "inv-") || strings.HasPrefix(kind, "loop-exit")) {
+			fc.curFact = labelBase(label)
+		}
 		fc.assume(st, goal)
+		fc.curFact = saved
 	}
 	return o
+}
+
+func labelBase(l string) string {
+	if j := strings.IndexAny(l, ".@["); j >= 0 {
+		return l[:j]
+	}
+	return l
 }
 
 // probe records a satisfiability probe (vacuity / cover): expected result is sat.
@@ -236,6 +437,67 @@ func (fc *FnCtx) probe(st *State, cond, kind, desc string) *Obligation {
 	return o
 }
 
+// relevant: lemma instances requested with `use [labels] ...` are only given to obligations with one of
+// those labels (a labelled clause "count" also covers its split parts "count.1", "count@2", ...).
+func (o *Obligation) relevant(i int) bool {
+	if g, ok := o.fc.cmdGuard[i]; ok {
+		if o.fc.exclusive(g, o.PC) {
+			return false
+		}
+		if o.sliced && !o.onChain(g) {
+			return false // sliced variant: only facts recorded on the obligation's own path (ancestors) are kept
+		}
+	}
+	base := labelBase(o.Label)
+	if o.Strict {
+		if fact, ok := o.fc.cmdFact[i]; ok {
+			if fact != base {
+				found := false
+				for _, n := range o.Needs {
+					if n == fact {
+						found = true
+					}
+				}
+				if !found {
+					return false
+				}
+			}
+		}
+	}
+	only, ok := o.fc.cmdOnly[i]
+	if !ok {
+		return true
+	}
+	if base == "" {
+		return true
+	}
+	for _, l := range strings.Split(only, ",") {
+		if strings.TrimSpace(l) == base {
+			return true
+		}
+	}
+	return false
+}
+
+func (o *Obligation) onChain(g string) bool {
+	if o.chainSet == nil {
+		o.chainSet = map[string]bool{}
+		for _, x := range o.fc.chain(o.PC) {
+			o.chainSet[x] = true
+		}
+	}
+	return o.chainSet[g]
+}
+
+// SlicedQueryText: the same obligation with a smaller hypothesis set (facts recorded on paths that were
+// merged into this one are left out). Dropping hypotheses is sound; `unsat` of this variant discharges
+// the obligation, any other answer means nothing.
+func (o *Obligation) SlicedQueryText() string {
+	o.sliced = true
+	defer func() { o.sliced = false }()
+	return o.QueryText()
+}
+
 func (o *Obligation) QueryText() string {
 	fc := o.fc
 	var sb strings.Builder
@@ -243,7 +505,10 @@ func (o *Obligation) QueryText() string {
 	sb.WriteString("(set-option :produce-models true)\n")
 	sb.WriteString("(set-logic ALL)\n")
 	var body strings.Builder
-	for _, c := range fc.cmds[:o.ncmds] {
+	for i, c := range fc.cmds[:o.ncmds] {
+		if !o.relevant(i) {
+			continue
+		}
 		body.WriteString(c)
 		body.WriteString("\n")
 	}
@@ -271,7 +536,10 @@ func (o *Obligation) QueryText() string {
 		sb.WriteString(p)
 		sb.WriteString("\n")
 	}
-	for _, c := range fc.cmds[:o.ncmds] {
+	for i, c := range fc.cmds[:o.ncmds] {
+		if !o.relevant(i) {
+			continue
+		}
 		sb.WriteString(c)
 		sb.WriteString("\n")
 	}
@@ -318,7 +586,7 @@ func (fc *FnCtx) sortOf(t types.Type) string {
 			if u.Info()&types.IsUntyped != 0 {
 				return fc.I()
 			}
-			if fc.bv {
+			if fc.isBVType(u) {
 				return fmt.Sprintf("(_ BitVec %d)", intWidth(u))
 			}
 			return "Int"
@@ -361,7 +629,7 @@ func (fc *FnCtx) strSort() string {
 		fc.addPre("(declare-sort Str 0)")
 		fc.addPre(fmt.Sprintf("(declare-fun str.len (Str) %s)", fc.I()))
 		fc.addPre(fmt.Sprintf("(declare-fun str.at (Str %s) (_ BitVec 8))", fc.I()))
-		if fc.bv {
+		if fc.idxBV() {
 			fc.addAxiom("str.len", "(assert (forall ((s Str)) (! (bvsge (str.len s) (_ bv0 64)) :pattern ((str.len s)))))")
 		} else {
 			fc.addAxiom("str.len", "(assert (forall ((s Str)) (! (>= (str.len s) 0) :pattern ((str.len s)))))")
